@@ -53,7 +53,9 @@ theorem bindTarget_withUid (l r : Reg) (sc : Scope) (u : Nat) :
     bindTarget l r (sc.withUid u) = mapOut (fun p => (p.1, p.2.withUid u)) (bindTarget l r sc) := by
   unfold bindTarget
   split
-  · exact updateType_withUid sc u _ _
+  · split
+    · rfl
+    · exact updateType_withUid sc u _ _
   · rfl
 
 theorem bindEmit_withUid (is : List Instr) (l r : Reg) (sc : Scope) (u : Nat) :
